@@ -112,7 +112,7 @@ CHECKS["C09"] = (
 CHECKS["C18"] = (
     "exploration",
     "runtime monitoring: differential execution of a torch.compile'd optimizer (backends eager / aot_eager, static / dynamic / auto shapes) against an uncompiled twin on identical inputs, compared after every step",
-    "32 (quick) / 400 (thorough) generated configurations covering the branches of the group step (decay modes, filtering with beta3, grafting types, momentum/Nesterov/dampening, bias correction, Shampoo / SOAP eigh+QR, blocked parameters, the state-aliasing class), 8-12 steps across the warm-up switch with >=2 refreshes and 1-5 gradient-presence changes that force recompilation. After each step all parameters and every state tensor (independent traversal) are compared: bitwise first (observed: ~99% of steps), else within 1e-6 of the step's update. torch._dynamo counters give the number of compiled graphs per case (0 => trivial); configurations torch's own compiler refuses (aliasing limit under dynamic shapes) are counted and skipped. Sampled.",
+    "60 (quick) / 400 (thorough) generated configurations covering the branches of the group step (decay modes, filtering with beta3, grafting types, momentum/Nesterov/dampening, bias correction, Shampoo / SOAP eigh+QR, blocked parameters, the state-aliasing class), 8-12 steps across the warm-up switch with >=2 refreshes and 1-5 gradient-presence changes that force recompilation. After each step all parameters and every state tensor (independent traversal) are compared: bitwise first (observed: ~99% of steps), else within 1e-6 of the step's update. torch._dynamo counters give the number of compiled graphs per case (0 => trivial); configurations torch's own compiler refuses (aliasing limit under dynamic shapes) are counted and skipped. Sampled.",
     "Trusted: torch.compile backends 'eager'/'aot_eager' preserve eager numerics (the property's premise). inductor / CUDA graphs cannot run here.",
     "DESIGN.md 3 C18",
 )
